@@ -3,7 +3,6 @@
 use crate::prng::{label, mix, Prng};
 use crate::refmodel::sm3::Sm3;
 use crate::world::{Violation, World};
-use rayon::prelude::*;
 use serde_json::{json, Value};
 use std::collections::{BTreeMap, BTreeSet};
 use std::io::Write;
@@ -60,9 +59,51 @@ pub struct Sink {
     /// when set, every finished world's schedule is kept in execution order (run-level replay)
     pub record: bool,
     pub histories: Vec<(Vec<Value>, Vec<(String, String)>)>,
+    /// set when the sink came back from a worker process: the finished digest
+    pub digest_done: Option<Vec<u8>>,
 }
 
 impl Sink {
+    /// One line of a worker process's output.
+    pub fn to_json(&self) -> Value {
+        json!({
+            "run": self.run,
+            "stats": self.stats,
+            "cases": self.cases.iter().map(|(k, v)| (k.clone(), json!(v.iter().collect::<Vec<_>>()))).collect::<serde_json::Map<String, Value>>(),
+            "found": self.found.iter().map(|f| json!({"property": f.v.property, "oracle": f.v.oracle, "step": f.v.step, "detail": f.v.detail, "key": f.v.key, "schedule": f.schedule, "run": f.run})).collect::<Vec<_>>(),
+            "viol_counts": self.viol_counts,
+            "digest": hex::encode(self.digest.clone().finish()),
+            "samples": self.samples,
+            "worlds": self.worlds,
+            "ops": self.ops,
+        })
+    }
+    pub fn from_json(v: &Value) -> Option<Sink> {
+        let mut s = Sink::new(v.get("run")?.as_u64()? as usize);
+        for (k, x) in v.get("stats")?.as_object()? {
+            s.stats.insert(k.clone(), x.as_u64()?);
+        }
+        for (k, x) in v.get("cases")?.as_object()? {
+            s.cases.insert(k.clone(), x.as_array()?.iter().filter_map(|c| c.as_u64()).collect());
+        }
+        for f in v.get("found")?.as_array()? {
+            let g = |n: &str| f.get(n).and_then(|x| x.as_str()).map(String::from);
+            s.found.push(Found {
+                v: Violation { property: g("property")?, oracle: g("oracle")?, step: f.get("step")?.as_u64()? as usize, detail: g("detail")?, key: f.get("key")?.clone() },
+                schedule: f.get("schedule")?.as_array()?.clone(),
+                run: f.get("run")?.as_u64()? as usize,
+            });
+        }
+        for (k, x) in v.get("viol_counts")?.as_object()? {
+            s.viol_counts.insert(k.clone(), x.as_u64()?);
+        }
+        s.digest_done = Some(hex::decode(v.get("digest")?.as_str()?).ok()?);
+        s.samples = v.get("samples")?.as_array()?.clone();
+        s.worlds = v.get("worlds")?.as_u64()?;
+        s.ops = v.get("ops")?.as_u64()?;
+        Some(s)
+    }
+
     pub fn new(run: usize) -> Sink {
         Sink {
             run,
@@ -76,6 +117,7 @@ impl Sink {
             ops: 0,
             record: false,
             histories: vec![],
+            digest_done: None,
         }
     }
     pub fn done(&mut self, w: World) {
@@ -182,6 +224,13 @@ pub fn watch_exempt() {
     WATCH.lock().unwrap().remove(&id);
 }
 
+/// Re-arm the watchdog from inside a compound op (one library call is about to start).
+pub fn touch() {
+    let id = MY_WATCH_ID.with(|i| *i);
+    let run = CUR_RUN.with(|c| c.get());
+    WATCH.lock().unwrap().insert(id, (Instant::now(), run));
+}
+
 pub fn journal_done() {
     let id = MY_WATCH_ID.with(|i| *i);
     WATCH.lock().unwrap().remove(&id);
@@ -258,12 +307,100 @@ pub fn run_level_schedule(f: RunFn, seed: u64, prop: &str, tier: Tier, i: usize,
     None
 }
 
-pub fn run_all(f: RunFn, seed: u64, prop: &str, tier: Tier, runs: usize, serial: bool) -> Merged {
+/// Number of worker processes (run i is executed by worker i mod N, after that worker's earlier runs).
+pub fn workers() -> usize {
+    std::env::var("GMSIM_WORKERS").ok().and_then(|s| s.parse().ok()).filter(|n| *n >= 1).unwrap_or_else(|| std::thread::available_parallelism().map(|n| n.get()).unwrap_or(16))
+}
+
+/// Why the batch could not be completed.
+pub enum WorkerFail {
+    /// an op of this run exceeded HANG_SECS
+    Stuck(usize),
+    /// a worker process ended abnormally (exit code, 134 for a signal)
+    Died(i32),
+}
+
+/// `gmsim worker <ID> <tier> <seed> <runs> <w> <n>`: runs w, w+n, w+2n, ... one after the other, each
+/// in a fresh thread; one JSON line per finished run on stdout.
+pub fn worker_main(f: RunFn, seed: u64, prop: &str, tier: Tier, runs: usize, w: usize, n: usize) -> i32 {
+    use std::io::Write as _;
+    set_journal_property(prop);
+    spawn_watchdog(|run| {
+        println!("{}", json!({"stuck": run}));
+        let _ = std::io::stdout().flush();
+        std::process::exit(3);
+    });
+    let out = std::io::stdout();
+    let mut i = w;
+    while i < runs {
+        let s = run_one(f, seed, prop, tier, i);
+        let mut o = out.lock();
+        let _ = writeln!(o, "{}", s.to_json());
+        let _ = o.flush();
+        i += n;
+    }
+    0
+}
+
+/// The batch. Parallelism is by PROCESS: the library under test is free to keep process-wide state
+/// (statics, caches), and two runs sharing a process at the same time would make each other's
+/// outcome depend on real thread timing. Inside a worker the runs are sequential, so everything a
+/// run can see is decided by (seed, property, tier, worker count).
+pub fn run_all(f: RunFn, seed: u64, prop: &str, tier: Tier, runs: usize, serial: bool) -> Result<Merged, WorkerFail> {
     GLOBAL_SEED.store(seed, Ordering::SeqCst);
     let sinks: Vec<Sink> = if serial {
         (0..runs).map(|i| run_one(f, seed, prop, tier, i)).collect()
     } else {
-        (0..runs).into_par_iter().map(|i| run_one(f, seed, prop, tier, i)).collect()
+        let n = workers().min(runs.max(1));
+        let exe = std::env::current_exe().expect("current_exe");
+        let mut children = vec![];
+        for w in 0..n {
+            let mut c = std::process::Command::new(&exe)
+                .args(["worker", prop, tier.name(), &seed.to_string(), &runs.to_string(), &w.to_string(), &n.to_string()])
+                .stdout(std::process::Stdio::piped())
+                .spawn()
+                .expect("spawn worker");
+            let out = c.stdout.take().unwrap();
+            let h = std::thread::spawn(move || {
+                use std::io::BufRead as _;
+                let mut sinks = vec![];
+                let mut stuck = None;
+                for l in std::io::BufReader::new(out).lines().map_while(|l| l.ok()) {
+                    match serde_json::from_str::<Value>(&l) {
+                        Ok(v) => {
+                            if let Some(r) = v.get("stuck").and_then(|r| r.as_u64()) {
+                                stuck = Some(r as usize);
+                            } else if let Some(s) = Sink::from_json(&v) {
+                                sinks.push(s);
+                            }
+                        }
+                        Err(_) => println!("{l}"), // a diagnostic the worker printed: pass it on
+                    }
+                }
+                (sinks, stuck)
+            });
+            children.push((c, h));
+        }
+        let mut sinks = vec![];
+        let mut fail: Option<WorkerFail> = None;
+        for (mut c, h) in children {
+            let (s, stuck) = h.join().expect("worker reader");
+            let st = c.wait().expect("wait worker");
+            sinks.extend(s);
+            if let Some(r) = stuck {
+                fail = Some(WorkerFail::Stuck(r));
+            } else if !st.success() && fail.is_none() {
+                fail = Some(WorkerFail::Died(st.code().unwrap_or(134)));
+            }
+        }
+        if let Some(f) = fail {
+            return Err(f);
+        }
+        sinks.sort_by_key(|s| s.run);
+        if sinks.len() != runs {
+            return Err(WorkerFail::Died(101));
+        }
+        sinks
     };
     let mut m = Merged {
         runs,
@@ -278,7 +415,10 @@ pub fn run_all(f: RunFn, seed: u64, prop: &str, tier: Tier, runs: usize, serial:
     };
     let mut d = Sm3::new();
     for s in sinks {
-        d.update(&s.digest.clone().finish());
+        match &s.digest_done {
+            Some(b) => d.update(b),
+            None => d.update(&s.digest.clone().finish()),
+        };
         for (k, v) in s.stats {
             *m.stats.entry(k).or_insert(0) += v;
         }
@@ -298,7 +438,28 @@ pub fn run_all(f: RunFn, seed: u64, prop: &str, tier: Tier, runs: usize, serial:
         m.ops += s.ops;
     }
     m.digest = hex::encode(d.finish());
-    m
+    Ok(m)
+}
+
+/// Everything worker `run mod n` executed up to and including `run`, as one schedule: runs separated
+/// by `thread.reset` (each run has its own thread), worlds by `world.reset`. For a violation that
+/// depends on state the library kept PROCESS-wide from earlier runs.
+pub fn worker_level_schedule(f: RunFn, seed: u64, prop: &str, tier: Tier, run: usize, n: usize, oracle: &str) -> Option<Vec<Value>> {
+    let mut out = vec![];
+    let mut r = run % n;
+    while r <= run {
+        let sink = run_one_rec(f, seed, prop, tier, r, true);
+        for (h, v) in sink.histories {
+            out.extend(h);
+            if r == run && v.iter().any(|(p, o)| p == prop && o == oracle) {
+                return Some(out);
+            }
+            out.push(json!({"op":"world.reset"}));
+        }
+        out.push(json!({"op":"thread.reset"}));
+        r += n;
+    }
+    None
 }
 
 // ---- replay / minimise --------------------------------------------------------------------------
@@ -306,8 +467,34 @@ pub fn run_all(f: RunFn, seed: u64, prop: &str, tier: Tier, runs: usize, serial:
 pub fn exec_schedule(schedule: &[Value], keep_trace: bool) -> World {
     let mut w = World::new();
     w.keep_trace = keep_trace;
+    // `thread.reset`: what follows is executed by a new thread (as each run of a batch is)
+    let mut segs: Vec<Vec<Value>> = vec![vec![]];
     for op in schedule {
-        w.exec(op.clone());
+        if op.get("op").and_then(|o| o.as_str()) == Some("thread.reset") {
+            segs.push(vec![]);
+        } else {
+            segs.last_mut().unwrap().push(op.clone());
+        }
+    }
+    let many = segs.len() > 1;
+    for seg in segs {
+        let go = move |mut w: World| {
+            for op in seg {
+                w.exec(op);
+                if w.invalid.is_some() {
+                    break;
+                }
+            }
+            w
+        };
+        w = if many {
+            std::thread::Builder::new().stack_size(64 << 20).spawn(move || go(w)).expect("spawn").join().unwrap_or_else(|_| {
+                eprintln!("HARNESS PANIC in a replay thread");
+                std::process::exit(101)
+            })
+        } else {
+            go(w)
+        };
         if w.invalid.is_some() {
             break;
         }
